@@ -54,32 +54,87 @@ func (listExtractor) Requirements() *plugin.Capabilities { return &plugin.Capabi
 func (listExtractor) FileRequired(api filesystem.FileAPI) bool {
 	return strings.HasSuffix(api.Path(), ".list")
 }
+
+// cancelScan is called when the extractor reads a "!cancel" line (set per case).
+var cancelScan func()
+
+// line formats: "name version", "name version @other-location" (a package with two locations),
+// "!cancel" (cancels the scan context; yields no package)
 func (listExtractor) Extract(_ context.Context, in *filesystem.ScanInput) (inventory.Inventory, error) {
 	var pkgs []*extractor.Package
 	sc := bufio.NewScanner(in.Reader)
 	for sc.Scan() {
 		f := strings.Fields(sc.Text())
+		if len(f) == 1 && f[0] == "!cancel" {
+			if cancelScan != nil {
+				cancelScan()
+			}
+			continue
+		}
+		if len(f) == 3 && strings.HasPrefix(f[2], "@") {
+			pkgs = append(pkgs, &extractor.Package{Name: f[0], Version: f[1], Locations: []string{in.Path, f[2][1:]}, Metadata: in.Path})
+			continue
+		}
 		if len(f) != 2 {
 			continue
 		}
-		pkgs = append(pkgs, &extractor.Package{Name: f[0], Version: f[1], Locations: []string{in.Path}})
+		pkgs = append(pkgs, &extractor.Package{Name: f[0], Version: f[1], Locations: []string{in.Path}, Metadata: in.Path})
 	}
 	return inventory.Inventory{Packages: pkgs}, sc.Err()
 }
+
+// ToPURL normalises the name the way PyPI does (case-insensitive; runs of '-', '_', '.' are one '-'):
+// the package URL, not the spelling in the file, is the identity of a package.
 func (listExtractor) ToPURL(p *extractor.Package) *purl.PackageURL {
-	return &purl.PackageURL{Type: purl.TypeGeneric, Name: p.Name, Version: p.Version}
+	return &purl.PackageURL{Type: purl.TypeGeneric, Name: normName(p.Name), Version: p.Version}
+}
+
+func normName(n string) string {
+	var sb strings.Builder
+	sep := false
+	for _, c := range strings.ToLower(n) {
+		if c == '-' || c == '_' || c == '.' {
+			sep = true
+			continue
+		}
+		if sep && sb.Len() > 0 {
+			sb.WriteByte('-')
+		}
+		sep = false
+		sb.WriteRune(c)
+	}
+	return sb.String()
+}
+
+// spell returns one of three spellings of the same package URL; which one depends on the layer, so a
+// layer that rewrites a file respells the packages it keeps.
+func spell(name string, variant int) string {
+	switch variant % 3 {
+	case 1:
+		return strings.ToUpper(name[:1]) + strings.NewReplacer("-", "_", ".", "_").Replace(name[1:])
+	case 2:
+		return strings.NewReplacer("-", ".", "_", ".").Replace(strings.ToUpper(name))
+	}
+	return name
 }
 func (listExtractor) Ecosystem(*extractor.Package) string { return "" }
 
 // ---------------------------------------------------------------- cases
-var files = []string{"pkgs/a.list", "pkgs/b.list", "c.list"} // location ids 1..3
-var pkgNames = []string{"alpha", "beta", "gamma", "delta"}   // package ids 1..4, all version 1.0
+// location ids 1..5; the last two are only ever symbolic links to one of the first three
+var files = []string{"pkgs/a.list", "pkgs/b.list", "c.list", "alias.list", "pkgs/alias2.list"}
+
+const nRegular = 3
+
+var pkgNames = []string{"alpha", "beta", "gamma-x", "delta-y-z"} // package (URL) ids 1..4, all version 1.0
 
 // FileOp is what one layer does to one file.
 type FileOp struct {
-	File int    `json:"file"`           // index into files
-	Op   string `json:"op"`             // write | delete
-	Pkgs []int  `json:"pkgs,omitempty"` // package indices (write)
+	File   int    `json:"file"`             // index into files
+	Op     string `json:"op"`               // write | delete | link
+	Pkgs   []int  `json:"pkgs,omitempty"`   // package indices (write); -1 = the "!cancel" line
+	Extra  int    `json:"extra,omitempty"`  // write: 1-based index of the second location every package of this file names (0 = none)
+	Target int    `json:"target,omitempty"` // link: index into files of the link target
+	Abs    bool   `json:"abs,omitempty"`    // link: absolute Linkname
 }
 
 // HEntry is one config history entry; Layer >= 0 names the v1 layer it was generated with.
@@ -90,19 +145,24 @@ type HEntry struct {
 
 // PObs is one reported package.
 type PObs struct {
-	File  int `json:"file"`
-	Pkg   int `json:"pkg"`
-	Index int `json:"index"`
-	Diff  int `json:"diff"` // 1-based number of the v1 layer whose diff id was reported; 0 = "", 999 = unknown
-	Cmd   int `json:"cmd"`  // command id; 0 = "", 999 = unknown
+	File   int  `json:"file"`  // Locations[0] as reported (ScanResult sorts every package's Locations)
+	Extra  int  `json:"extra"` // 1-based index of Locations[1], 0 = none
+	Src    int  `json:"src"`   // the file the package was extracted from (the extractor records it in Metadata)
+	InBase bool `json:"in_base_image"`
+	Pkg    int  `json:"pkg"`
+	Index  int  `json:"index"`
+	Diff   int  `json:"diff"` // 1-based number of the v1 layer whose diff id was reported; 0 = "", 999 = unknown
+	Cmd    int  `json:"cmd"`  // command id; 0 = "", 999 = unknown
 }
 
 // Case is one generated image.
 type Case struct {
-	Stream  string     `json:"stream"`
-	History []HEntry   `json:"history"`
-	Layers  [][]FileOp `json:"layers"` // v1 layers, in order
-	Obs     []PObs     `json:"obs,omitempty"`
+	Stream       string     `json:"stream"`
+	ReadSymlinks bool       `json:"read_symlinks,omitempty"`
+	DirLink      bool       `json:"dir_link,omitempty"` // layer 0 also holds the directory symlink lnk -> pkgs
+	History      []HEntry   `json:"history"`
+	Layers       [][]FileOp `json:"layers"` // v1 layers, in order
+	Obs          []PObs     `json:"obs,omitempty"`
 }
 
 func must(err error) {
@@ -111,9 +171,12 @@ func must(err error) {
 	}
 }
 
-func mkLayer(k int, ops []FileOp) v1.Layer {
+func mkLayer(k int, ops []FileOp, dirLink bool) v1.Layer {
 	var buf bytes.Buffer
 	tw := tar.NewWriter(&buf)
+	if dirLink {
+		must(tw.WriteHeader(&tar.Header{Name: "lnk", Typeflag: tar.TypeSymlink, Linkname: "pkgs", Mode: 0o777}))
+	}
 	marker := fmt.Sprintf("layer-%d\n", k)
 	must(tw.WriteHeader(&tar.Header{Name: fmt.Sprintf("marker-%d", k), Typeflag: tar.TypeReg, Mode: 0o644, Size: int64(len(marker))}))
 	_, err := tw.Write([]byte(marker))
@@ -121,10 +184,27 @@ func mkLayer(k int, ops []FileOp) v1.Layer {
 	for _, o := range ops {
 		name := files[o.File]
 		switch o.Op {
+		case "link":
+			t := files[o.Target]
+			ln := "/" + t
+			if !o.Abs {
+				ln = t
+				if strings.Contains(name, "/") { // the link lives in pkgs/
+					ln = "../" + t
+				}
+			}
+			must(tw.WriteHeader(&tar.Header{Name: name, Typeflag: tar.TypeSymlink, Linkname: ln, Mode: 0o777}))
 		case "write":
 			var sb strings.Builder
 			for _, p := range o.Pkgs {
-				fmt.Fprintf(&sb, "%s 1.0\n", pkgNames[p])
+				switch {
+				case p < 0:
+					sb.WriteString("!cancel\n")
+				case o.Extra > 0:
+					fmt.Fprintf(&sb, "%s 1.0 @%s\n", spell(pkgNames[p], k+p), files[o.Extra-1])
+				default:
+					fmt.Fprintf(&sb, "%s 1.0\n", spell(pkgNames[p], k+p))
+				}
 			}
 			body := sb.String()
 			if body == "" {
@@ -151,7 +231,7 @@ func runCase(c *Case) {
 	var ls []v1.Layer
 	diffNo := map[string]int{"": 0}
 	for k, ops := range c.Layers {
-		l := mkLayer(k, ops)
+		l := mkLayer(k, ops, c.DirLink && k == 0)
 		ls = append(ls, l)
 		d, err := l.DiffID()
 		must(err)
@@ -173,9 +253,14 @@ func runCase(c *Case) {
 		panic(fmt.Sprintf("FromV1Image: %v", err))
 	}
 	defer func() { _ = x.CleanUp() }()
-	res, err := scalibr.New().ScanContainer(context.Background(), x, &scalibr.ScanConfig{
+	ctx, cancel := context.WithCancel(context.Background())
+	defer cancel()
+	cancelScan = cancel
+	defer func() { cancelScan = nil }()
+	res, err := scalibr.New().ScanContainer(ctx, x, &scalibr.ScanConfig{
 		FilesystemExtractors: []filesystem.Extractor{listExtractor{}},
 		Capabilities:         &plugin.Capabilities{OS: plugin.OSLinux},
+		ReadSymlinks:         c.ReadSymlinks,
 	})
 	must(err)
 	if res.Status.Status != plugin.ScanStatusSucceeded {
@@ -183,19 +268,33 @@ func runCase(c *Case) {
 	}
 	c.Obs = c.Obs[:0]
 	for _, p := range res.Inventory.Packages {
-		o := PObs{File: -1, Pkg: -1, Index: -1, Diff: 999, Cmd: 999}
+		o := PObs{File: -1, Src: -1, Pkg: -1, Index: -1, Diff: 999, Cmd: 999}
+		if m, ok := p.Metadata.(string); ok {
+			for i, f := range files {
+				if m == f {
+					o.Src = i
+				}
+			}
+		}
 		for i, f := range files {
 			if len(p.Locations) > 0 && p.Locations[0] == f {
 				o.File = i
 			}
+			if len(p.Locations) > 1 && p.Locations[1] == f {
+				o.Extra = i + 1
+			}
+		}
+		if len(p.Locations) > 2 || (len(p.Locations) > 1 && o.Extra == 0) {
+			o.File = -1 // unexpected location list
 		}
 		for i, n := range pkgNames {
-			if p.Name == n {
+			if normName(p.Name) == n {
 				o.Pkg = i
 			}
 		}
 		if ld := p.LayerDetails; ld != nil {
 			o.Index = ld.Index
+			o.InBase = ld.InBaseImage
 			if n, ok := diffNo[ld.DiffID]; ok {
 				o.Diff = n
 			}
@@ -214,14 +313,17 @@ func runCase(c *Case) {
 
 // ---------------------------------------------------------------- Coq printing
 func coqOp(o FileOp) string {
-	if o.Op == "delete" {
-		return fmt.Sprintf("(%d, Delete)", o.File+1)
+	switch o.Op {
+	case "delete":
+		return fmt.Sprintf("(%d, LDelete)", o.File+1)
+	case "link":
+		return fmt.Sprintf("(%d, LLink %d)", o.File+1, o.Target+1)
 	}
 	ps := make([]string, len(o.Pkgs))
 	for i, p := range o.Pkgs {
-		ps[i] = fmt.Sprint(p + 1)
+		ps[i] = fmt.Sprint(p + 1) // the cancel line (-1) is key 0
 	}
-	return fmt.Sprintf("(%d, Write [%s])", o.File+1, strings.Join(ps, ";"))
+	return fmt.Sprintf("(%d, LWrite [%s])", o.File+1, strings.Join(ps, ";"))
 }
 
 func coqCase(c *Case) string {
@@ -241,7 +343,11 @@ func coqCase(c *Case) string {
 		if idx < 0 {
 			idx = 9999 // no LayerDetails: never equals a layer index
 		}
-		os = append(os, fmt.Sprintf("mkP %d %d %d %d %d", o.File+1, o.Pkg+1, idx, o.Diff, o.Cmd))
+		locs := fmt.Sprintf("[%d]", o.File+1)
+		if o.Extra > 0 {
+			locs = fmt.Sprintf("[%d;%d]", o.File+1, o.Extra)
+		}
+		os = append(os, fmt.Sprintf("mkP %s %d %d %d %d %d %s", locs, o.Src+1, o.Pkg+1, idx, o.Diff, o.Cmd, cf.Bool(o.InBase)))
 	}
 	return fmt.Sprintf("mkT %s %s %s", cf.List(hs), cf.List(ls), cf.List(os))
 }
@@ -311,6 +417,95 @@ func genRandom(r *rand.Rand, n int) []*Case {
 	return out
 }
 
+// genVariant: histories beyond whole-file operations on one-location packages.
+//
+//	multi-loc  every package of some files names a second location; layers may touch only that one
+//	symlink    locations 4 and 5 are symbolic links to package files, scanned with ReadSymlinks;
+//	           layer 0 may also hold a directory symlink lnk -> pkgs (nothing is reported through it)
+//	cancel     one view that is not the last holds a "!cancel" line: extracting it cancels the context
+func genVariant(r *rand.Rand, n int, kind string) []*Case {
+	var out []*Case
+	for i := 0; i < n; i++ {
+		c := &Case{Stream: kind}
+		nl := 2 + r.Intn(5)
+		npk := 1 + r.Intn(4)
+		if kind == "symlink" {
+			c.ReadSymlinks = true
+			c.DirLink = r.Intn(2) == 0
+		}
+		for k := 0; k < nl; k++ {
+			if r.Intn(6) == 0 {
+				c.History = append(c.History, HEntry{Empty: true, Cmd: k + 1})
+				continue
+			}
+			var ops []FileOp
+			for f := 0; f < nRegular; f++ {
+				switch x := r.Intn(10); {
+				case x < 4:
+				case x < 8:
+					o := FileOp{File: f, Op: "write", Pkgs: subsetOf(r, npk)}
+					if kind == "multi-loc" && r.Intn(2) == 0 {
+						o.Extra = 1 + (f+1+r.Intn(2))%nRegular
+					}
+					ops = append(ops, o)
+				default:
+					ops = append(ops, FileOp{File: f, Op: "delete"})
+				}
+			}
+			if kind == "symlink" {
+				for f := nRegular; f < len(files); f++ {
+					switch x := r.Intn(10); {
+					case x < 5:
+					case x < 8:
+						ops = append(ops, FileOp{File: f, Op: "link", Target: r.Intn(nRegular), Abs: r.Intn(2) == 0})
+					case x < 9:
+						ops = append(ops, FileOp{File: f, Op: "delete"})
+					default:
+						ops = append(ops, FileOp{File: f, Op: "write", Pkgs: subsetOf(r, npk)})
+					}
+				}
+			}
+			c.Layers = append(c.Layers, ops)
+			c.History = append(c.History, HEntry{Cmd: k + 1})
+		}
+		if len(c.Layers) == 0 {
+			c.Layers = append(c.Layers, []FileOp{{File: 0, Op: "write", Pkgs: []int{0}}})
+			c.History = append(c.History, HEntry{Cmd: 99})
+		}
+		if kind == "cancel" {
+			// put the marker into a write that a later layer overwrites or deletes
+			done := false
+			for k := 0; k < len(c.Layers)-1 && !done; k++ {
+				for oi := range c.Layers[k] {
+					o := &c.Layers[k][oi]
+					if o.Op != "write" {
+						continue
+					}
+					later := false
+					for k2 := k + 1; k2 < len(c.Layers); k2++ {
+						for _, o2 := range c.Layers[k2] {
+							if o2.File == o.File {
+								later = true
+							}
+						}
+					}
+					if later && r.Intn(2) == 0 {
+						pos := r.Intn(len(o.Pkgs) + 1)
+						o.Pkgs = append(o.Pkgs[:pos:pos], append([]int{-1}, o.Pkgs[pos:]...)...)
+						done = true
+						break
+					}
+				}
+			}
+			if !done {
+				c.Stream = "cancel-none"
+			}
+		}
+		out = append(out, c)
+	}
+	return out
+}
+
 // genExhaustive: every history of 1..maxLayers entries over one file and two packages; per entry:
 // empty layer | untouched | delete | write S for the four subsets S of {alpha, beta}.
 func genExhaustive(maxLayers int) []*Case {
@@ -360,13 +555,16 @@ func genExhaustive(maxLayers int) []*Case {
 
 const header = "From Coq Require Import List NArith Bool.\nFrom Scalibr Require Import Trace.Model.\nImport ListNotations.\nOpen Scope N_scope.\n"
 const footer = "Definition corr_bad := Eval vm_compute in bad_indices case_model_ok cases 0.\nPrint corr_bad.\n" +
-	"Definition spec_bad := Eval vm_compute in bad_indices case_spec_ok cases 0.\nPrint spec_bad.\n"
+	"Definition spec_bad := Eval vm_compute in bad_indices case_spec_ok cases 0.\nPrint spec_bad.\n" +
+	"Definition outside_D := Eval vm_compute in [fold_right (fun c a => (case_outside_D c + a)%nat) 0%nat cases].\nPrint outside_D.\n" +
+	"Definition strict_bad := Eval vm_compute in [length (bad_indices case_spec_strict_ok cases 0)].\nPrint strict_bad.\n"
 
 func main() {
 	out := flag.String("out", "", "output prefix for .v files")
 	side := flag.String("jsonl", "", "output side file")
 	seed := flag.Int64("seed", 1, "PRNG seed")
 	nrand := flag.Int("random", 400, "number of random cases")
+	nvar := flag.Int("variants", 150, "number of cases of each variant stream (multi-loc, symlink, cancel)")
 	exh := flag.Int("exh", 3, "exhaustive histories up to this many layers (0 = none)")
 	part := flag.Int("part", 0, "this part")
 	parts := flag.Int("parts", 1, "number of parts (cases are dealt round-robin)")
@@ -397,6 +595,9 @@ func main() {
 	var all []*Case
 	all = append(all, genExhaustive(*exh)...)
 	all = append(all, genRandom(r, *nrand)...)
+	for _, kind := range []string{"multi-loc", "symlink", "cancel"} {
+		all = append(all, genVariant(r, *nvar, kind)...)
+	}
 	var cases []*Case
 	for i, c := range all {
 		if i%*parts == *part {
